@@ -132,6 +132,9 @@ ASSUMPTIONS = [
     "value and problem TEXTS are universally quantified parameters of the model (not predicted); the driver reads them off the real message; predicted are exception class, class prefix, path, suffix, shape, order and count",
     "deserialization: which supplied fields its first phase rejects (phaseOneInvalid) and where / under which leading path each rejection is raised (p1Sites: named / inner / foreign) are modelled and corresponded; the scratch `_name` of every inner Field instance is an INPUT of the model, observed by the harness just before the call; value / problem texts after the head are not predicted. The oracle accepts a known finding only at the site kind where the Lean model places it (never by message text, never by probing the code under test)",
     "PYTHONHASHSEED=0; the class dump lists fields in the real signature order",
+    "deserialization of classes outside the flat domain: accept / reject, exception class and the deserialized constructor arguments come from Lean `deser` (Sem/Deser.lean) run on the class dump in DEFINITION order (the order construct_fields_map visits fields at every level); the heads (`dHead`) are the scratch-independent wrapper guarantees; keep_undefined is passed as the entry point passes it",
+    "the theorems' hypothesis on texts (`goodTexts`: non-empty problem where the shape puts it, not starting with 'G' / ';') is checked on every real constructor message; membership of the problem text in typedpy's templates ('Expected …', 'Does not match regular expression: …') is recorded as evidence only, so a harmless rewording is not an alarm",
+    "class names: the message heads carry the real class name; for classes typedpy derives (Partial / AllFieldsRequired / Extend / Omit / Pick) the Lean model `derivedName` predicts whether the name stays in [\\w.]+ and only that abstraction is compared",
 ]
 TRUSTED_EXTRA = [
     "harness/suites/errors.py: to_doc / lift (document <-> constructor-argument correspondence for flat fields), names_field (path-names-field relation) and the finding classifier",
